@@ -93,6 +93,7 @@ type verifDir struct {
 	leaves  map[string]*verifLeaf
 	removed map[string]bool
 	yieldInOpen bool
+	blockInOpen chan struct{} // if set, an open waits inside the file system until released
 }
 
 func (d *verifDir) VirtualGetAttributes(ctx context.Context, requested virtual.AttributesMask, attributes *virtual.Attributes) {
@@ -104,6 +105,9 @@ func (d *verifDir) VirtualGetAttributes(ctx context.Context, requested virtual.A
 func (d *verifDir) VirtualOpenChild(ctx context.Context, name path.Component, shareAccess virtual.ShareMask, createAttributes *virtual.Attributes, existingOptions *virtual.OpenExistingOptions, requested virtual.AttributesMask, openedFileAttributes *virtual.Attributes) (virtual.Leaf, virtual.AttributesMask, virtual.ChangeInfo, virtual.Status) {
 	if d.yieldInOpen {
 		rt.Yield()
+	}
+	if d.blockInOpen != nil {
+		<-d.blockInOpen
 	}
 	l, ok := d.leaves[name.String()]
 	if !ok || d.removed[name.String()] {
